@@ -472,8 +472,14 @@ class PurityMonitor(Monitor):
             self.strs[id(p)] = (p, sstr(p, 100000))
         if id(p) not in self.ccode and len(self.ccode) < 5 and self.ctx.rng.random() < 0.35:
             # the generated C of an existing procedure is part of what must never change
-            self.ccode[id(p)] = (p, _c_digest(p))
-            self.ctx.stat("purity.c_compiles")
+            d1 = _c_digest(p)
+            if str(d1).startswith("reject:") and _c_digest(p) != d1:
+                # a rejection that does not repeat (the parallel analysis turns *any* exception, a solver
+                # timeout or the watchdog included, into "potential data races"): not tracked
+                self.ctx.stat("purity.c_unstable_not_tracked")
+            else:
+                self.ccode[id(p)] = (p, d1)
+                self.ctx.stat("purity.c_compiles")
         ir = p._loopir_proc
         st = irutil.all_stmts(ir)
         if st:
@@ -553,6 +559,9 @@ class PurityMonitor(Monitor):
                 ctx.stat("purity.c_rechecks")
                 d2 = _c_digest(p)
                 if d2 != dig and not (str(dig).startswith("z3") or str(d2).startswith("z3")):
+                    if _c_digest(p) != d2:
+                        ctx.inconclusive("compile_outcome_not_repeatable")  # transient (solver timeout swallowed by exo)
+                        continue
                     bad = {"what": "generated_c_changed", "first": str(dig)[:60], "now": str(d2)[:60]}
                     self.ccode[key] = (p, d2)
                     break
